@@ -420,3 +420,105 @@ func reachMeter(c *ctx) map[string]any {
 	wg.Wait()
 	return out
 }
+
+// ---------------------------------------------------------------- in-situ contract monitors (wrap instrumentation)
+
+var wrapTargets = []string{
+	"internal/field:Element.Add", "internal/field:Element.Sub", "internal/field:Element.Neg", "internal/field:Element.Mul",
+	"internal/field:Element.Square", "internal/field:Element.Square2", "internal/field:Element.Pow2k", "internal/field:Element.Mul121666",
+	"internal/field:Element.Invert", "internal/field:Element.SqrtRatioI", "internal/field:Element.ToBytes", "internal/field:Element.SetBytes",
+	"internal/field:Element.SetBytesWide", "internal/field:Element.ConditionalSelect", "internal/field:Element.ConditionalSwap",
+	"internal/field:Element.ConditionalAssign", "internal/field:Element.ConditionalNegate", "internal/field:Element.IsNegative",
+	"internal/field:Element.IsZero", "internal/field:Element.Equal",
+	"curve/scalar:Scalar.ToRadix16", "curve/scalar:Scalar.NonAdjacentForm", "curve/scalar:Scalar.ToRadix2w", "curve/scalar:Scalar.Bits",
+	"curve:projectiveNielsPointLookupTable.Lookup", "curve:affineNielsPointLookupTable.Lookup", "curve:cachedPointLookupTable.Lookup",
+	"curve:projectiveNielsPointNafLookupTable.Lookup", "curve:cachedPointNafLookupTable.Lookup", "curve:affineNielsPointNafLookupTable.Lookup",
+	"curve:cachedPointNafLookupTable8.Lookup",
+	"internal/lattice:.FindShortVector",
+}
+
+// runSitu makes a second scratch copy, wraps the target functions with boundary hooks, builds the situ driver against
+// it and runs it in every configuration of the check.
+func runSitu(c *ctx, monitor string, cfgNames []string) []procOut {
+	voi2 := filepath.Join(c.scratch, "situ", "voi")
+	h2 := filepath.Join(c.scratch, "situ", "h")
+	os.MkdirAll(filepath.Join(c.scratch, "situ"), 0o755)
+	fail := func(msg string) []procOut {
+		return []procOut{{cfg: "situ", exitCode: 2, stderr: "HARNESS-ERROR in-situ monitor: " + msg}}
+	}
+	if !c.useGraft {
+		c.notes = append(c.notes, "in-situ monitor skipped: grafts do not fit this tree")
+		return nil
+	}
+	// start from the pristine working tree (the main copy may carry tick instrumentation)
+	if out, err := run("", nil, "rsync", "-a", "--exclude=.git", c.repo+"/", voi2+"/"); err != nil {
+		return fail(out)
+	}
+	if out, err := run("", nil, "rsync", "-a", filepath.Join(c.scratch, "h")+"/", h2+"/"); err != nil {
+		return fail(out)
+	}
+	graftRoot := filepath.Join(verifDir, "graft")
+	filepath.Walk(graftRoot, func(p string, info os.FileInfo, err error) error {
+		if err != nil || info.IsDir() {
+			return nil
+		}
+		rel, _ := filepath.Rel(graftRoot, p)
+		dst := filepath.Join(voi2, rel)
+		os.MkdirAll(filepath.Dir(dst), 0o755)
+		b, _ := os.ReadFile(p)
+		os.WriteFile(dst, b, 0o644)
+		return nil
+	})
+	rep := filepath.Join(c.scratch, "out", "instr-situ.json")
+	if out, err := run("", nil, filepath.Join(verifDir, "bin", "vinstr"), "-root", voi2, "-mode", "wrap", "-wrap", strings.Join(wrapTargets, ","), "-report", rep); err != nil {
+		return fail("vinstr: " + out)
+	}
+	if b, err := os.ReadFile(rep); err == nil {
+		var v any
+		if json.Unmarshal(b, &v) == nil {
+			if c.extra == nil {
+				c.extra = map[string]any{}
+			}
+			c.extra["in_situ_instrumentation"] = v
+		}
+	}
+	bset := map[string]bool{}
+	var wg sync.WaitGroup
+	var mu sync.Mutex
+	berr := ""
+	for _, cn := range cfgNames {
+		bn := configs[cn].Build
+		if bset[bn] {
+			continue
+		}
+		bset[bn] = true
+		wg.Add(1)
+		go func(bn string) {
+			defer wg.Done()
+			b := builds[bn]
+			tags := append(append([]string{}, b.Tags...), "verif")
+			args := []string{"build", "-trimpath", "-tags", strings.Join(tags, ","), "-o", c.binPath("situ." + bn), "./drv/situ"}
+			if out, err := run(h2, goEnv(), "go", args...); err != nil {
+				mu.Lock()
+				berr = firstLines(out, 15)
+				mu.Unlock()
+			}
+		}(bn)
+	}
+	wg.Wait()
+	if berr != "" {
+		return fail("build: " + berr)
+	}
+	outs := make([]procOut, len(cfgNames))
+	for i, cn := range cfgNames {
+		wg.Add(1)
+		go func(i int, cn string) {
+			defer wg.Done()
+			cc := configs[cn]
+			cc.Build = "situ." + cc.Build
+			outs[i] = c.runConfig(cc, 1, []string{"-monitor", monitor}, nil, "+situ")
+		}(i, cn)
+	}
+	wg.Wait()
+	return outs
+}
